@@ -1722,3 +1722,132 @@ Lemma stop_example :
   n_known n = false /\ c_zlb (e_ch (n_ep n)) = None /\
   map (fun p => (k_body p, k_ns p, k_nr p)) (e_sent (n_ep n)) = [(Some 7, 0, 1); (None, 1, 2)].
 Proof. vm_compute. splits; reflexivity. Qed.
+
+(* ================= dead under the runner's OWN schedule ================= *)
+Lemma next_rto_le_acc : forall q a, exists x, next_rto q (Some a) = Some x /\ x <= a.
+Proof.
+  induction q as [|p r IH]; intros a; simpl; [exists a; split; [reflexivity|lia]|].
+  destruct (p_att p =? 0); [apply IH|].
+  destruct (p_dl p <? a) eqn:E.
+  - destruct (IH (p_dl p)) as (x & Hx & Hl). exists x. split; [exact Hx|lia].
+  - apply IH.
+Qed.
+
+Lemma earliest_le x z : exists rr, earliest (Some x) z = Some rr /\ rr <= x.
+Proof.
+  unfold earliest. destruct z as [y|]; [destruct (y <? x) eqn:E|]; eexists; (split; [reflexivity|lia]).
+Qed.
+
+Lemma ret_le_head p' r' z : 1 <= p_att p' ->
+  exists rr, earliest (next_rto (p' :: r') None) z = Some rr /\ rr <= p_dl p'.
+Proof.
+  intros Ha. cbn [next_rto]. assert (p_att p' =? 0 = false) as -> by lia.
+  destruct (next_rto_le_acc r' (p_dl p')) as (x & Hx & Hl). rewrite Hx.
+  destruct (earliest_le x z) as (rr & Hr & Hle). exists rr. split; [exact Hr|lia].
+Qed.
+
+(* one Tick seen from the queue head: dead, or the head survives — untouched before its deadline, with one
+   more attempt and a new deadline within rtoMax after it — and Tick tells the runner to come back no later
+   than the head's (new) deadline *)
+Lemma tick_head f c t p r c' o d ret :
+  c_q c = p :: r -> 1 <= p_att p -> tick f c t = (c', o, d, ret) ->
+  d = true \/
+  (d = false /\ exists p' r', c_q c' = p' :: r' /\
+     ((t < p_dl p /\ p' = p) \/
+      (p_dl p <= t /\ p_att p' = p_att p + 1 /\ p_att p' <= f_maxr f /\ p_dl p' <= t + f_rto_max f)) /\
+     exists rr, ret = Some rr /\ rr <= p_dl p').
+Proof.
+  intros Hq Ha H. unfold tick in H. rewrite Hq in H. cbn [tick_q] in H.
+  destruct ((p_att p =? 0) || (t <? p_dl p)) eqn:Es.
+  - assert (t < p_dl p) by lia.
+    destruct (tick_q f t (c_nr c) (c_cwnd c) (c_ssth c) r) as [[[oq cw] ss] o1].
+    destruct oq as [r'|]; cbn [option_map] in H; inversion H; subst; clear H; [|left; reflexivity].
+    right. split; [reflexivity|]. exists p, r'. cbn [c_q]. splits; auto.
+    apply ret_le_head; exact Ha.
+  - assert (p_dl p <= t) by lia.
+    destruct (f_maxr f <? p_att p + 1) eqn:Ed; [inversion H; subst; left; reflexivity|].
+    match type of H with context [tick_q f t ?n 1 ?s r] =>
+      destruct (tick_q f t n 1 s r) as [[[oq cw] ss] o1] end.
+    destruct oq as [r'|]; cbn [option_map] in H; inversion H; subst; clear H; [|left; reflexivity].
+    right. split; [reflexivity|]. eexists; exists r'. cbn [c_q]. splits; [reflexivity| |].
+    + right. cbn [p_att p_dl]. splits; try lia.
+      destruct (f_rto_max f <? f_rto_init f * pow2 (p_att p + 1 - 1)) eqn:E; lia.
+    + assert (p_att p + 1 =? 0 = false) as -> by lia.
+      match goal with |- context [next_rto r' (Some ?a)] =>
+        destruct (next_rto_le_acc r' a) as (x & Hx & Hl); rewrite Hx end.
+      match goal with |- context [earliest (Some x) ?z] =>
+        destruct (earliest_le x z) as (rr & Hr & Hle) end.
+      exists rr. split; [exact Hr|]. cbn [p_dl]. lia.
+Qed.
+
+(* the runner loop: Tick, then sleep until runner_next; between Ticks anything may happen to the channel that
+   leaves the queue head alone ([g k]: submissions, duplicates, messages that acknowledge nothing new, ...) *)
+Definition keeps_head (g : chan -> chan) : Prop :=
+  forall c p r, c_q c = p :: r -> 1 <= p_att p -> exists r', c_q (g c) = p :: r'.
+
+Fixpoint runner_dead (f : conf) (g : nat -> chan -> chan) (c : chan) (t : Z) (fuel : nat) : option Z :=
+  match fuel with
+  | O => None
+  | S k => let '(c', _, d, ret) := tick f c t in
+           if d then Some t else runner_dead f g (g k c') (runner_next ret t) k
+  end.
+
+Definition rstep (f : conf) : Z := Z.max (f_rto_max f) 50 + 50.
+
+Lemma dead_under_runner f g : (forall k, keeps_head (g k)) ->
+  forall fuel c t p r,
+  c_q c = p :: r -> 1 <= p_att p <= f_maxr f ->
+  Z.max t (p_dl p + 50) + (f_maxr f - p_att p) * rstep f - t < Z.of_nat fuel * 50 ->
+  exists td, runner_dead f g c t fuel = Some td /\
+             t <= td <= Z.max t (p_dl p + 50) + (f_maxr f - p_att p) * rstep f.
+Proof.
+  intros Hg. unfold rstep.
+  induction fuel as [|k IH]; intros c t p r Hq Ha Hf.
+  - exfalso. simpl in Hf. nia.
+  - cbn [runner_dead].
+    destruct (tick f c t) as [[[c' o] d] ret] eqn:E.
+    destruct (tick_head _ _ _ _ _ _ _ _ _ Hq (proj1 Ha) E) as [->|(-> & p' & r' & Hq' & Hcase & rr & -> & Hrr)].
+    + exists t. split; [reflexivity|]. nia.
+    + assert (Hp' : 1 <= p_att p') by (destruct Hcase as [[_ ->]|(_ & Ea & _)]; lia).
+      destruct (Hg k c' p' r' Hq' Hp') as (r'' & Hq'').
+      destruct (runner_next_bounds (Some rr) t) as [_ Hn].
+      assert (Hstep : t + 50 <= runner_next (Some rr) t <= Z.max (p_dl p') (t + 50)) by (rewrite Hn; lia).
+      destruct Hcase as [[Hlt ->]|(Hge & Hatt & Hmax & Hdl)].
+      * destruct (IH (g k c') (runner_next (Some rr) t) p r'' Hq'' Ha) as (td & Htd & Hb); [nia|].
+        exists td. split; [exact Htd|]. nia.
+      * destruct (IH (g k c') (runner_next (Some rr) t) p' r'' Hq'' ltac:(lia)) as (td & Htd & Hb).
+        { rewrite Hatt. nia. }
+        exists td. split; [exact Htd|]. rewrite Hatt in Hb. nia.
+Qed.
+
+(* two instances of head-preserving interference: a submission (with any write fault), and an inbound
+   message whose Nr does not acknowledge the head (duplicates, retransmissions of the peer, ZLBs with an old Nr) *)
+Lemma submit_keeps_head f body sid now fj :
+  keeps_head (fun c => fst (fst (send_session f c body sid now fj))).
+Proof.
+  intros c p r Hq Ha. unfold send_session, drive_send. cbn [c_q c_cwnd c_nr]. rewrite Hq. cbn [app drive_q].
+  assert (0 <? p_att p = true) as -> by lia.
+  match goal with |- context [drive_q ?a ?b ?d ?i fj ?q] => destruct (drive_q a b d i fj q) as [[r' o] e] end.
+  cbn. eexists; reflexivity.
+Qed.
+
+Lemma recv_keeps_head f ns nr now fj :
+  forall c p r, c_q c = p :: r -> 1 <= p_att p -> seq_less (p_ns p) nr = false ->
+  exists r', c_q (fst (fst (fst (recv f c ns nr now fj)))) = p :: r'.
+Proof.
+  intros c p r Hq Ha Hs. unfold recv, ack_through. rewrite Hq. cbn [ack_q].
+  assert (p_att p =? 0 = false) as -> by lia. rewrite Hs. cbn.
+  destruct (negb (ns =? c_nr c)); cbn; eexists; reflexivity.
+Qed.
+
+Lemma runner_dead_example :
+  runner_dead ex_conf (fun _ c => c) ex_chan 100 30 = Some 700 /\
+  runner_dead ex_conf (fun k c => fst (fst (send_session ex_conf c (Z.of_nat k) 0 0 None))) ex_chan 100 30 = Some 700.
+Proof. vm_compute. split; reflexivity. Qed.
+
+Lemma reachable_inv ai am ar az aw bi bm br bz bw oa ob evs :
+  honest evs = true ->
+  let s := run false (init_sys (ai, am, ar, az, aw) (bi, bm, br, bz, bw) oa ob) evs in
+  Z.of_nat (length (e_sub (s_a s))) < 32768 -> Z.of_nat (length (e_sub (s_b s))) < 32768 ->
+  dir_inv oa (s_a s) (s_b s) /\ dir_inv ob (s_b s) (s_a s).
+Proof. intros Hh s BA BB. apply run_inv; [apply init_inv|exact Hh|split; assumption]. Qed.
